@@ -73,7 +73,9 @@ CHECKS = {
         "structurally equal to v with the same runtime classes. Datum direction: for every accepted datum within bounds, "
         "serialize(T, deserialize(T, d)) must equal the reference completion of d with defaults and re-deserialize to an "
         "equal value. Under identity / prefix / camelCase aliasers and additional_properties.",
-        note="json.dumps/loads is inserted on replay only (C boundary). Standard-library converted types (UUID, date, "
+        note="The serialized data goes through a structural JSON normalisation (str / int mixin Enum members become plain "
+        "values); json.dumps/loads itself is inserted on replay only (C boundary). Discriminated unions: value direction only. "
+        "Standard-library converted types (UUID, date, "
         "datetime, time, Decimal, bytes, Path, ip addresses, Pattern, deque) are run on concrete value pools selected by "
         "forks and labelled realised: their C parsers reject proxies, so that part is enumeration, not a solver verdict.",
         design="4/C05",
@@ -207,7 +209,9 @@ CHECKS = {
         "deserialize(param_type, arg) and an argument that apischema rejects (schema constraints) must yield a GraphQL "
         "error with neither the resolver nor its error handler invoked.",
         note="ints assumed in the 32-bit range. Concrete side conditions (flagged): validate_schema empty; kinds, names, "
-        "nullability, interfaces (through intermediate classes) and argument types equal the reference mapping. "
+        "nullability, interfaces (through intermediate classes) and argument types equal the reference mapping; small "
+        "schemas built and queried concretely (`build` cases: unhashable / object defaults, GraphQLResolveInfo position, "
+        "none_as_undefined, nested flatten, flattened class also used plain, recursion through a resolver). "
         "Subscriptions, async resolvers, relay helpers and id_types are outside (event loop / not built).",
         design="4/C19",
     ),
@@ -220,10 +224,14 @@ CHECKS = {
         "RecMethod, T2 calls the same compiled method on symbolic data. Assertion: the interfered first use, T2's own call "
         "and a follow-up use of every type return what the sequential baseline returns and raise nothing it does not "
         "raise. Every counterexample is replayed as a true two-thread run through the public API (T1 parked inside the "
-        "wrapper while T2 runs).",
+        "wrapper while T2 runs). The lru_cache holding the recursion cache is modelled with its real miss semantics (the "
+        "cached function runs unlocked: the miss is a switch point; a value computed while another thread stored the key is "
+        "returned, not stored). Shared variant: one compiled method used by both threads on symbolic data; every attribute "
+        "store T1 performs on an object of the compiled tree is a switch point after which T2 makes a complete call on the "
+        "same method; both results and a follow-up call of each equal the sequential ones.",
         note="CrossHair cannot run threads: the schedule dimension is enumerated by forks over (access index, interfering "
-        "type), one event in quick and two in thorough; T2 is atomic between two cache accesses of T1. Outside: "
-        "pre-emption inside T2, free-threaded builds, atomicity of single dict / lru_cache operations (trusted, GIL).",
+        "type), one event in quick and two in thorough; T2 is atomic between two switch points of T1. Outside: "
+        "pre-emption inside T2, free-threaded builds, atomicity of single dict operations and attribute stores (trusted, GIL).",
         design="4/C20",
         technique="bounded exhaustive enumeration of interference points driven by the CrossHair fork tree over the real "
         "code, symbolic data for the lazy-initialisation variant; true two-thread replay",
